@@ -41,7 +41,7 @@ structure GVals where
 /-- Point update of a table indexed by object id. -/
 def upd {α : Type} (f : Nat → α) (k : Nat) (v : α) : Nat → α := fun x => if x = k then v else f x
 
-structure State where
+@[ext] structure State where
   /-- number of `Data` objects ever created (ids below it exist). -/
   nData : Nat
   /-- number of `SubsetGroup` objects ever created. -/
@@ -297,5 +297,32 @@ def specOk (st : State) (reads : List Read) : Bool :=
   st.datasets.all (dataOk st) && st.groups.all (groupOk st) &&
   (List.range st.nData).all (removedDataOk st) && (List.range st.nGroup).all (removedGroupOk st) &&
   readsOk st reads
+
+/-! ## The inductive invariant
+
+Stronger than `specOk` (it also fixes the *order* of the lists, which is what makes it inductive
+for the handlers as coded): every dataset in the collection carries its subsets in group order,
+every live group lists its subsets in dataset order, attachment and listing agree, datasets
+outside the collection carry nothing, and exactly the live groups are subscribed. -/
+structure Inv (st : State) : Prop where
+  nodupD : st.datasets.Nodup
+  nodupG : st.groups.Nodup
+  subsEq : st.subs = st.groups
+  dBound : ∀ d ∈ st.datasets, d < st.nData
+  gBound : ∀ g ∈ st.groups, g < st.nGroup
+  /-- the subsets of a dataset in the collection belong, in order, to the live groups. -/
+  dataGroups : ∀ d ∈ st.datasets, (st.dsubs d).map (·.group) = st.groups
+  /-- a subset attached to a dataset points back to it. -/
+  subData : ∀ d, ∀ s ∈ st.dsubs d, s.data = some d
+  /-- a dataset that is not in the collection carries no subsets. -/
+  removedEmpty : ∀ d, d ∉ st.datasets → st.dsubs d = []
+  /-- the subsets listed by a live group belong, in order, to the datasets of the collection. -/
+  groupDatas : ∀ g ∈ st.groups, (st.gsubs g).map (·.data) = st.datasets.map some
+  /-- a subset listed by a group (live or removed) points back to it. -/
+  subGroup : ∀ g, ∀ s ∈ st.gsubs g, s.group = g
+  /-- what a live group lists is attached to its dataset. -/
+  groupAttached : ∀ g ∈ st.groups, ∀ s ∈ st.gsubs g, ∀ d, s.data = some d → s ∈ st.dsubs d
+  /-- what a dataset of the collection carries is listed by the subset's group. -/
+  attachedListed : ∀ d ∈ st.datasets, ∀ s ∈ st.dsubs d, s ∈ st.gsubs s.group
 
 end GlueVerif.Collection
